@@ -23,6 +23,7 @@ case "$t" in "170/170 tests passed") ;; *) ok=0;; esac
 if [ -f "$dst/demo.sh" ]; then
 	bin=cproc-qbe
 	grep -q "^+++ b/driver.c" "$dst/patch.diff" && bin=cproc
+	grep -Eq "\"property\": *\"C1[78]\"" "$dst/meta.json" && bin=cproc
 	(cd "$dst" && sh ./demo.sh "$wt/$bin" >"$wt/demo.changed" 2>&1); rc1=$?
 	(cd "$dst" && sh ./demo.sh "/repo/$bin" >"$wt/demo.orig" 2>&1); rc0=$?
 	echo "demo.sh with the change ($bin): exit $rc1"; sed 's/^/    /' "$wt/demo.changed" | head -20
